@@ -5152,6 +5152,9 @@ func (c *Compat) Watch(ctx context.Context, fn func(Tx) error, keys ...string) e
 	if err := tx.Watch(ctx, keys...).Err(); err != nil {
 		return err
 	}
+	// A WATCH that fn did not consume with EXEC must not stay on the connection when it goes back to the pool,
+	// otherwise it aborts an unrelated later transaction. go-redis does the same UNWATCH in Tx.Close.
+	defer dc.Do(ctx, dc.B().Unwatch().Build())
 	return fn(newTx(dc, cancel))
 }
 
